@@ -92,4 +92,96 @@ class Orch:
                 "obs": c.get("obs"), "model": (o or {}).get("model")}
 
 
-SCN = {"orch": Orch}
+class KCScn:
+    """aspects: set (installed set = what the history denotes), sorted (slice is the set in
+    non-increasing salience order), index (index map = positions), exec (sort model runs the
+    slice in order with the current bodies), exists, atomic (a rejected operation changes
+    nothing and reports an error), model (impl vs model up to ties), crash."""
+
+    @staticmethod
+    def rl(x):
+        return [(r["name"], r["sal"], r["ver"]) for r in (x or [])]
+
+    @staticmethod
+    def groups(lst):
+        g = []
+        for n, s, v in lst:
+            if g and g[-1][0] == s:
+                g[-1][1].add((n, v))
+            else:
+                g.append([s, {(n, v)}])
+        return g
+
+    @staticmethod
+    def compare(c, o):
+        issues = []
+        def add(aspect, kind, k, detail):
+            issues.append({"aspect": aspect, "kind": kind, "method": "kc", "detail": "op %d (%s): %s" % (k, c["ops"][k]["kind"], detail)})
+        steps = (o or {}).get("steps") or []
+        prev = {"entities": [], "sort": [], "index": []}
+        for k, op in enumerate(c.get("ops") or []):
+            a = op.get("after") or {}
+            if op.get("panic"):
+                add("crash", "impl-vs-spec", k, "panic: %s" % op["panic"][:200])
+                continue
+            if k >= len(steps):
+                add("driver", "impl-vs-model", k, "no driver step")
+                continue
+            st = steps[k]
+            ent, srt = KCScn.rl(a.get("entities")), KCScn.rl(a.get("sort"))
+            spec = KCScn.rl(st.get("spec"))
+            if bool(op.get("err")) != bool(st.get("err")):
+                add("atomic", "impl-vs-spec", k, "impl err=%s, expected err=%s (bad=%r)" % (op.get("err"), st.get("err"), op.get("bad")))
+            if st.get("err") and (a.get("entities") != prev["entities"] or a.get("sort") != prev["sort"] or a.get("index") != prev["index"]):
+                add("atomic", "impl-vs-spec", k, "rejected operation changed the container: before %s after %s" % (prev["sort"], a.get("sort")))
+            if ent != spec:
+                add("set", "impl-vs-spec", k, "installed %s, history denotes %s" % (ent, spec))
+            if sorted(srt) != sorted(ent):
+                add("sorted", "impl-vs-spec", k, "sorted slice %s is not a permutation of the rule map %s" % (srt, ent))
+            if any(srt[i][1] < srt[i + 1][1] for i in range(len(srt) - 1)):
+                add("sorted", "impl-vs-spec", k, "slice not in non-increasing salience order: %s" % (srt,))
+            idx = [(x[0], x[1]) for x in (a.get("index") or [])]
+            want_idx = sorted((r[0], i) for i, r in enumerate(srt))
+            # the index map is only read for names that are installed; stale extra keys are harmless
+            if sorted(x for x in idx if x[0] in {r[0] for r in srt}) != want_idx:
+                add("index", "impl-vs-spec", k, "index map %s, positions %s" % (idx, want_idx))
+            if (a.get("trace") or []) != [r[0] for r in srt]:
+                add("exec", "impl-vs-spec", k, "sort model ran %s, slice is %s" % (a.get("trace"), [r[0] for r in srt]))
+            if [list(x) for x in (a.get("results") or [])] != [[n, v] for n, s_, v in sorted(ent)]:
+                add("exec", "impl-vs-spec", k, "results %s, installed versions %s" % (a.get("results"), sorted(ent)))
+            if (a.get("exists") or []) != [any(r[0] == n for r in spec) for n in c.get("pool") or []]:
+                add("exists", "impl-vs-spec", k, "IsExist %s for set %s" % (a.get("exists"), spec))
+            m_srt = KCScn.rl(st.get("sort"))
+            if KCScn.groups(m_srt) != KCScn.groups(srt) or KCScn.rl(st.get("entities")) != ent:
+                add("model", "impl-vs-model", k, "impl slice %s, model slice %s" % (srt, m_srt))
+            if KCScn.rl(st.get("entities")) != spec:
+                add("model", "model-vs-spec", k, "model %s spec %s" % (st.get("entities"), spec))
+            prev = {"entities": a.get("entities"), "sort": a.get("sort"), "index": a.get("index")}
+        return issues
+
+    @staticmethod
+    def classify(c):
+        ops = c.get("ops") or []
+        key = json.dumps([[op["kind"], op["bad"], [(r["name"], r["sal"]) for r in op["rules"]], op["names"]] for op in ops])
+        nontrivial = len(ops) >= 2 and any(len((op.get("after") or {}).get("sort") or []) >= 2 for op in ops)
+        return key, nontrivial
+
+    @staticmethod
+    def histo(c):
+        ops = c.get("ops") or []
+        yield "ops:%d" % len(ops)
+        for op in ops:
+            yield "op:%s%s" % (op["kind"], ("/" + op["bad"]) if op["bad"] else "")
+            srt = (op.get("after") or {}).get("sort") or []
+            yield "size:%d" % len(srt)
+            sal = [r["sal"] for r in srt]
+            if len(set(sal)) < len(sal):
+                yield "ties:yes"
+
+    @staticmethod
+    def sample(c, o):
+        return {"ops": [[op["kind"], op["bad"], [(r["name"], r["sal"], r["ver"]) for r in op["rules"]], op["names"],
+                         [r["name"] for r in (op.get("after") or {}).get("sort") or []]] for op in c.get("ops") or []]}
+
+
+SCN = {"orch": Orch, "kc": KCScn}
